@@ -318,6 +318,17 @@ def call_np(ip, name, args, kwargs, lineno):
         return r
     if name == "concatenate":
         xs = args[0]
+        if isinstance(xs, (list, tuple)) and xs and all(isinstance(x, STable) for x in xs):
+            # np.concatenate of tables: column-wise concatenation (bnpdataclass, assumed - C19)
+            M.use("np.concatenate(list of tables) concatenates every column (bnpdataclass, assumed)")
+            cols = {}
+            for k in xs[0].cols:
+                vals = [x.cols[k] for x in xs]
+                cols[k] = concat_list(vals) if all(isinstance(v, SArr) for v in vals) else Opaque("concatenated column " + k)
+            n = xs[0].n
+            for x in xs[1:]:
+                n = conc(I(n) + I(x.n))
+            return STable(cols, n, xs[0].cls)
         if isinstance(xs, (list, tuple)):
             arrs = [as_arr(ip, x) for x in xs]
             return concat_list(arrs)
